@@ -19,6 +19,7 @@ import ast
 import os
 
 from .. import translate
+from . import normalize
 
 REL = "fairlearn/utils/_input_validation.py"
 
@@ -53,7 +54,7 @@ def _lean_chars(s):
 @translate.lifter
 def lift_merge(repo):
     src = translate._read(repo, REL)
-    tree = ast.parse(src)
+    tree = normalize.parse(src)
     env = {}
     merge_fn = None
     for node in tree.body:
